@@ -82,7 +82,7 @@ structure World.OK (W : World Node VH V) : Prop where
   prim : OvSorted W.env.primary
   sec : OvSorted W.env.secondary
   leaves : LeavesOK W.env.leaves
-  firstSep : ∀ l ∈ W.env.leaves.head?, ∀ k : Key, bitsLt k l.sep = false
+  firstSep : ∀ l ∈ W.env.leaves.head?, ∀ k : Key, k.length = KEY_BITS → bitsLt k l.sep = false
   -- the overlay
   ov : OvSorted W.env.ov
   -- the view
